@@ -166,7 +166,7 @@ pub fn run(ctx: &Ctx, model: &mut Model, rep: &mut Report) {
         // correspondence (every 3rd case in the quick tier): atoms of model output vs atoms of real output
         if ctx.thorough || i % 3 == 0 {
             let h = History { ext: if i % 2 == 0 { "".into() } else { ".md".into() }, import: vec![(key.clone(), text.clone())], steps: vec![] };
-            if let Some(reply) = hist::model_reply(model, &h) {
+            if let Some(reply) = hist::model_reply_parts(model, &h, &["md"]) {
                 let dir = Key::from_file_name(&key).parent();
                 let m = hist::model_md(&reply, 0);
                 let real = format_single(&key, &text, &h.ext);
